@@ -244,6 +244,34 @@ Print Assumptions C20_names_fields_documented.
 Theorem C20_names_fields_complete : sfrows_complete sysfield_rows = true.
 Proof. exact names_fields_complete. Qed.
 Print Assumptions C20_names_fields_complete.
+(* "carrying the pid and CACHED NAME", through the front end (psutil.Process over the platform layer): the name is one piece
+   of state; for EVERY history of name() calls (successful or failing) and other calls, a method that fails afterwards
+   carries exactly the name that name() last returned -- None if it never returned one *)
+Theorem C20_fe_name_carried : forall pre cache r post,
+  nth_error (fe_run cache (pre ++ ECall r :: post)) (List.length pre)
+  = Some (ORes r (last_returned cache (fe_run cache pre))).
+Proof. exact fe_name_carried. Qed.
+Print Assumptions C20_fe_name_carried.
+Theorem C20_fe_name_after_name : forall pre cache k c h r,
+  nth_error (fe_run cache (pre ++ [EName k c h true; ECall r])) (S (List.length pre))
+  = Some (ORes r (Some (fe_name k c h))).
+Proof. exact fe_name_after_name. Qed.
+Print Assumptions C20_fe_name_after_name.
+(* the returned name is the kernel name when that is shorter than 15 bytes, and always starts with it *)
+Theorem C20_fe_name_short : forall k c h, Z.of_nat (List.length k) < 15 -> fe_name k c h = k.
+Proof. exact fe_name_short. Qed.
+Print Assumptions C20_fe_name_short.
+Theorem C20_fe_name_extends : forall k c h, prefixb k (fe_name k c h) = true.
+Proof. exact fe_name_extends. Qed.
+Print Assumptions C20_fe_name_extends.
+(* the CODE: histories probed through the real psutil/__init__.py Process class of a copy of the package bound to the stub
+   layer of every POSIX platform (short / 15-byte extendable / non-matching / longer names; name() called, not called,
+   failing; then cmdline / cwd / threads / num_fds / environ / nice failing, wait(0) timing out): every psutil exception
+   carries pid and the returned name, and everything equals the model; every platform has rows for the three modes *)
+Theorem C20_frontend_cached_name_rows : (forall r, In r fename_rows -> frow_ok r = true) /\ frows_complete fename_rows = true.
+Proof. exact frontend_cached_name_rows. Qed.
+Print Assumptions C20_frontend_cached_name_rows.
+
 (* net_if_addrs() post-processing: probed rows equal the model ... *)
 Theorem C20_frontend_rows_equal_model : forall r, In r nic_rows -> nic_ok r = true.
 Proof. exact frontend_rows_equal_model. Qed.
